@@ -1010,7 +1010,26 @@ func (s *Service) copyECObjectRangeByRule(ctx context.Context, dst ChunkWriter, 
 	stageCtx, cancel := context.WithTimeout(ctx, stageTimeout)
 	defer cancel()
 
-	partHdr, firstPartStream, err := s.getECPartStream(stageCtx, cnr, parent, rule, ruleIdx, sortedNodes, 0)
+	// Any part carries the parent header. The first one is preferred because its
+	// payload stream can be reused, the others are tried when it is unavailable.
+	var partHdr object.Object
+	var firstPartStream io.ReadCloser
+	var err error
+	for partIdx := range int(rule.DataPartNum + rule.ParityPartNum) {
+		partHdr, firstPartStream, err = s.getECPartStream(stageCtx, cnr, parent, rule, ruleIdx, sortedNodes, partIdx)
+		if err == nil {
+			if partIdx > 0 && partHdr.Type() != object.TypeLink && firstPartStream != nil {
+				// only the header is needed, the payload is requested by ranges below
+				_ = firstPartStream.Close()
+				firstPartStream = nil
+			}
+			break
+		}
+		if errors.Is(err, apistatus.ErrObjectAlreadyRemoved) || errors.Is(err, apistatus.ErrObjectAccessDenied) ||
+			errors.Is(err, stageCtx.Err()) || errors.As(err, new(*object.SplitInfoError)) {
+			break
+		}
+	}
 	if err != nil {
 		return 0, 0, fmt.Errorf("resolve parent payload length: %w", err)
 	}
